@@ -66,6 +66,48 @@ def make(I):
         f = z3.Function(name, *([z3.RealSort()] * len(zs)), z3.BoolSort())
         return mk(f(*zs), 'bool')
 
+
+    def uf(I, name, sort, *args):
+        """application of an uninterpreted function; array arguments are passed by content identity"""
+        zs = []
+        for a in args:
+            if isinstance(a, Arr):
+                zs.append(z3.IntVal(getattr(a, 'cid', a.id)))
+            elif isinstance(a, bool):
+                zs.append(z3.BoolVal(a))
+            elif isinstance(a, Sym) and a.kind == 'bool':
+                zs.append(a.e)
+            elif isinstance(a, int) or (isinstance(a, Sym) and a.kind == 'int'):
+                zs.append(zint(a))
+            else:
+                zs.append(zreal(a))
+        rs = {'real': z3.RealSort(), 'bool': z3.BoolSort(), 'int': z3.IntSort()}[sort]
+        sig = '_'.join(str(z.sort()) for z in zs)
+        f = z3.Function(f'{name}__{sig}', *[z.sort() for z in zs], rs)
+        return mk(f(*zs), sort)
+
+    def dtype_of(I, v):
+        if isinstance(v, Arr):
+            return v.dtype
+        if isinstance(v, bool) or (isinstance(v, Sym) and v.kind == 'bool'):
+            return 'bool'
+        if isinstance(v, int) or (isinstance(v, Sym) and v.kind == 'int'):
+            return 'int'
+        if isinstance(v, float) or (isinstance(v, Sym) and v.kind == 'real'):
+            return 'float'
+        return 'object'
+
+
+    def is_bool_scalar(I, v):
+        return isinstance(v, bool) or (isinstance(v, Sym) and v.kind == 'bool')
+
+    def is_bool_array(I, v):
+        return isinstance(v, Arr) and v.dtype == 'bool'
+
+
+    def arr_like(I, like, fn, dtype='float'):
+        return Arr(like.shape, lambda idx: I.call(fn, list(idx), {}), dtype)
+
     def arr_from_fn(I, shape, fn, dtype='float'):
         shape = tuple(shape) if not isinstance(shape, ShapeTag) else shape
         return Arr(shape, lambda idx: I.call(fn, list(idx), {}), dtype)
@@ -102,7 +144,7 @@ def make(I):
     ns = dict(fresh_real=F('fresh_real', fresh_real), fresh_int=F('fresh_int', fresh_int), fresh_bool=F('fresh_bool', fresh_bool),
               fact=F('fact', fact), assume=F('assume', assume), implies=F('implies', implies), ite=F('ite', ite),
               oblige=F('oblige', oblige), event=F('event', event), is_symbolic=F('is_symbolic', is_symbolic),
-              unsupported=F('unsupported', unsupported), uf_real=F('uf_real', uf_real), uf_bool=F('uf_bool', uf_bool),
+              unsupported=F('unsupported', unsupported), uf_real=F('uf_real', uf_real), uf=F('uf', uf), arr_like=F('arr_like', arr_like), is_bool_scalar=F('is_bool_scalar', is_bool_scalar), is_bool_array=F('is_bool_array', is_bool_array), dtype_of=F('dtype_of', dtype_of), uf_bool=F('uf_bool', uf_bool),
               arr_from_fn=F('arr_from_fn', arr_from_fn), arr_at=F('arr_at', arr_at), is_array=F('is_array', is_array),
               cos=F('cos', N.np_cos), sin=F('sin', N.np_sin), sqrt=F('sqrt', lambda I, x: B.sqrt_(I, x)), PI=N.PI,
               deepcopy=F('deepcopy', lambda I, v: I.ext_modules and __import__('pyvc.stdlib_models', fromlist=['x']).deepcopy(I, v)),
